@@ -164,7 +164,7 @@ def main():
                 "kind_free_text": "cargo-kani 0.68.0 -> CBMC 6.11.0 -> CaDiCaL over #[kani::proof] harnesses injected into an overlay copy of /repo's working tree (tools/overlay.py, tools/vk.py)"}]
     for p in props:
         pid = p["id"]
-        quick = [h for h in hs if pid in h.props and h.prop_tier.get(pid, h.tier) == "quick" and h.expect != "fail"]
+        quick = [h for h in hs if pid in h.props and vk.eff_tier(h, pid) == "quick" and h.expect != "fail"]
         if pid in PROPS and pid in READY and len(quick) >= 2:
             meta = PROPS[pid]
             checks.append({
